@@ -1,4 +1,4 @@
-import FpgoVerif.Proofs.C05Sets
+import FpgoVerif.Proofs.C05StreamSet
 import FpgoVerif.Proofs.C05Twins
 /-! Property theorems for C05 — set algebra laws of the implementation models the driver executes
     (`Model/C05Impl.lean`), for ALL inputs (any element type with decidable equality, any length,
@@ -367,6 +367,132 @@ theorem C05_twin_ssMinusStreams {β : Type} [DecidableEq β] (m : GoMap κ (List
   | some i => simp only [G.ssMinusStreams, I.ssMinusStreams, StreamSet.minusStreamsW, h]
 
 end ByKey
+
+/-! ## StreamSet: by key, then per-key stream.  `(mget s k).getD []` is the stream under key `k`
+    (empty when the key is absent).  Scope of the property: non-empty key maps and non-empty per-key
+    streams; the hypotheses below are exactly the part of that scope each law needs. -/
+
+section StreamSetLaws
+variable {κ β : Type} [DecidableEq κ] [DecidableEq β]
+
+/-- StreamSet.Union: keys = union of the keys; under each key the items of both streams.
+    Needs the *argument's* streams non-empty (an empty stream in the argument overwrites the receiver's
+    stream — recorded observation, outside the demanded scope). -/
+theorem C05_streamset_union (m i : GoMap κ (List β)) (hm : (mkeys m).Nodup) (hi : (mkeys i).Nodup)
+    (hne : i ≠ []) (hstreams : ∀ k v2, mget i k = some v2 → v2 ≠ []) (k : κ) :
+    (k ∈ mkeys (G.ssUnion m (some i)) ↔ k ∈ mkeys m ∨ k ∈ mkeys i) ∧
+    ∀ x, x ∈ (mget (G.ssUnion m (some i)) k).getD [] ↔ x ∈ (mget m k).getD [] ∨ x ∈ (mget i k).getD [] := by
+  have hlen : (i.length == 0) = false := by simp [hne]
+  have e : mget (G.ssUnion m (some i)) k =
+      perKeyVal (fun v v2 => Stream.extend v [v2]) (mget m k) (mget i k) ((mget i k).orElse (fun _ => mget m k)) := by
+    simp only [G.ssUnion, StreamSet.unionW, hlen, Bool.false_eq_true, if_false,
+      duplicateMap_eq _ (nodup_mkeys_merge m i)]
+    rw [mget_perKey' _ _ _ _ hm, mget_merge m i hm hi]
+  simp only [mem_mkeys_iff_isSome]
+  rw [e]
+  unfold perKeyVal
+  cases hmk : mget m k with
+  | none => cases hik : mget i k <;> simp
+  | some v =>
+    cases hik : mget i k with
+    | none => simp
+    | some v2 =>
+      have : v2 ≠ [] := hstreams k v2 hik
+      have hl : v2.length > 0 := List.length_pos_iff.2 this
+      simp [hl, Stream.extend]
+
+example : G.ssUnion [(1, [1, 2]), (2, [5])] (some [(1, [2, 3]), (3, [7])]) = [(1, [1, 2, 2, 3]), (2, [5]), (3, [7])] := by
+  decide
+
+/-- StreamSet.Intersection: common keys; under each the items common to both streams (argument's streams non-empty) -/
+theorem C05_streamset_intersection (m i : GoMap κ (List β)) (hm : (mkeys m).Nodup) (hi : (mkeys i).Nodup)
+    (hne : i ≠ []) (hstreams : ∀ k v2, mget i k = some v2 → v2 ≠ []) (k : κ) :
+    (k ∈ mkeys (G.ssIntersection m (some i)) ↔ k ∈ mkeys m ∧ k ∈ mkeys i) ∧
+    ∀ x, x ∈ (mget (G.ssIntersection m (some i)) k).getD [] ↔ x ∈ (mget m k).getD [] ∧ x ∈ (mget i k).getD [] := by
+  have hlen : (i.length == 0) = false := by simp [hne]
+  have hnd := nodup_mkeys_intersectionMapByKey [m, i]
+  have e : mget (G.ssIntersection m (some i)) k =
+      perKeyVal Stream.intersection (if mhas i k then mget m k else none) (mget i k)
+        (if mhas i k then mget m k else none) := by
+    simp only [G.ssIntersection, StreamSet.intersectionW, hlen, Bool.false_eq_true, if_false,
+      duplicateMap_eq _ hnd]
+    rw [mget_perKey' _ _ _ _ hnd, mget_intersection2 m i hm hi]
+  simp only [mem_mkeys_iff_isSome]
+  rw [e]
+  unfold perKeyVal
+  cases hik : mget i k with
+  | none =>
+    have : mhas i k = false := by simp [mhas, hik]
+    simp [this]
+  | some v2 =>
+    have hh : mhas i k = true := by simp [mhas, hik]
+    have hv2 : v2 ≠ [] := hstreams k v2 hik
+    have hl : v2.length > 0 := List.length_pos_iff.2 hv2
+    cases hmk : mget m k with
+    | none => simp [hh]
+    | some v =>
+      simp only [hh, if_true, hl, Option.isSome_some, and_self, Option.getD_some, true_and]
+      intro x
+      exact (C05_stream_intersection v v2 hv2).2.2 x
+
+example : G.ssIntersection [(1, [1, 2, 1]), (2, [5])] (some [(1, [2, 1]), (3, [7])]) = [(1, [1, 2])] := by decide
+
+/-- StreamSet.MinusStreams: the receiver's keys; under each key the receiver's items that are not in the
+    argument's stream for that key (argument non-empty as a key map; its streams may be anything) -/
+theorem C05_streamset_minusStreams (m i : GoMap κ (List β)) (hm : (mkeys m).Nodup) (hne : i ≠ []) (k : κ) :
+    (k ∈ mkeys (G.ssMinusStreams m (some i)) ↔ k ∈ mkeys m) ∧
+    ∀ x, x ∈ (mget (G.ssMinusStreams m (some i)) k).getD [] ↔ x ∈ (mget m k).getD [] ∧ x ∉ (mget i k).getD [] := by
+  have hlen : (i.length == 0) = false := by simp [hne]
+  have hc : StreamSet.cloneW duplicateMap m = m := G_ssClone_eq m hm
+  have e : mget (G.ssMinusStreams m (some i)) k = perKeyVal Stream.minus (mget m k) (mget i k) (mget m k) := by
+    simp only [G.ssMinusStreams, StreamSet.minusStreamsW, hlen, Bool.false_eq_true, if_false, hc]
+    rw [mget_perKey' _ _ _ _ hm]
+  simp only [mem_mkeys_iff_isSome]
+  rw [e]
+  unfold perKeyVal
+  cases hmk : mget m k with
+  | none => cases hik : mget i k <;> simp
+  | some v =>
+    cases hik : mget i k with
+    | none => simp
+    | some v2 =>
+      by_cases hl : v2.length > 0
+      · simp only [hl, if_true, Option.isSome_some, Option.getD_some, true_and]
+        intro x
+        have := C05_stream_minus v (some v2) x
+        simpa using this
+      · have : v2 = [] := List.length_eq_zero_iff.1 (by omega)
+        subst this
+        simp
+
+example : G.ssMinusStreams [(1, [1, 2, 1]), (2, [5])] (some [(1, [1]), (3, [7])]) = [(1, [2]), (2, [5])] := by decide
+
+/-- StreamSet.Minus (by key): the receiver's keys that the argument does not have, streams untouched -/
+theorem C05_streamset_minus (m i : GoMap κ (List β)) (hm : (mkeys m).Nodup) (k : κ) :
+    (k ∈ mkeys (G.ssMinus m (some i)) ↔ k ∈ mkeys m ∧ k ∉ mkeys i) ∧
+    (k ∉ mkeys i → mget (G.ssMinus m (some i)) k = mget m k) := by
+  refine ⟨(C05_mapset_minus_keys m i hm k).1, ?_⟩
+  intro hk
+  simp only [G.ssMinus, MapSet.minus]
+  split
+  · rfl
+  · simp only [MapSet.clone, duplicateMap_eq m hm]
+    apply mget_foldl_del_keep
+    intro p _ hc hpk
+    subst hpk
+    exact hk ((mhas_iff i p.1).1 hc)
+
+/-- StreamSet.IsSubsetByKey / IsSupersetByKey (both families, non-empty key maps) -/
+theorem C05_streamset_isSubsetByKey (m i : GoMap κ (List β)) (hm : m ≠ []) (hi : i ≠ []) :
+    (G.ssIsSubsetByKey m (some i) = true ↔ ∀ k ∈ mkeys m, k ∈ mkeys i) ∧
+    (G.ssIsSupersetByKey m (some i) = true ↔ ∀ k ∈ mkeys i, k ∈ mkeys m) :=
+  ⟨isSubsetMapByKey_iff m i hm hi, isSubsetMapByKey_iff i m hi hm⟩
+
+example : ([(1, [1])] : GoMap Nat (List Nat)) ≠ [] ∧
+    G.ssIsSubsetByKey [(1, [1])] (some [(2, [0]), (1, [])]) = true ∧
+    I.ssIsSupersetByKey [(1, [1])] (some [(2, [0]), (1, [])]) = false := by decide
+
+end StreamSetLaws
 
 /-! ## closing theorems over the regenerated twin table (`Gen/Twins.lean`, rebuilt from the repository
     on every run).  Identical code on the same comparable data gives identical answers (trusted: Go's
